@@ -75,9 +75,14 @@ def is_path_ignored(
         _LOGGER.debug("skipping symlink '%s'", path)
         return True
 
+    if (
+        subset_files is not None
+        and not path.is_dir()
+        and path.resolve() not in subset_files
+    ):
+        return True
+
     if path.is_file():
-        if subset_files is not None and path.resolve() not in subset_files:
-            return True
         for pattern in _IGNORE_FILE_PATTERNS:
             if pattern.match(name) and (
                 name != "REUSE.toml" or not include_reuse_tomls
